@@ -200,7 +200,11 @@ func (rt *runtime) cmplEvaluateNodeBracketExpression(node *nodeBracketExpression
 		}
 		panic(rt.panicTypeError("Cannot access member %q of %s", name, err, at(node.idx)))
 	}
-	return toValue(newPropertyReference(rt, obj, memberValue.string(), false, at(node.idx)))
+	reference := newPropertyReference(rt, obj, memberValue.string(), false, at(node.idx))
+	if targetValue.IsPrimitive() && !targetValue.IsUndefined() && !targetValue.IsNull() {
+		reference.primitive = targetValue
+	}
+	return toValue(reference)
 }
 
 func (rt *runtime) cmplEvaluateNodeCallExpression(node *nodeCallExpression, withArgumentList []interface{}) Value {
@@ -225,6 +229,9 @@ func (rt *runtime) cmplEvaluateNodeCallExpression(node *nodeCallExpression, with
 		case *propertyReference:
 			name = rf.name
 			this = objectValue(rf.base)
+			if rf.primitive.IsDefined() {
+				this = rf.primitive
+			}
 			// Possible direct eval: only through an identifier (15.1.2.1.1: the
 			// base of the reference is an environment record, here that of a
 			// with statement or of the global object), not through o.eval(...).
@@ -286,7 +293,11 @@ func (rt *runtime) cmplEvaluateNodeDotExpression(node *nodeDotExpression) Value 
 	if err != nil {
 		panic(rt.panicTypeError("Cannot access member %q of %s", node.identifier, err, at(node.idx)))
 	}
-	return toValue(newPropertyReference(rt, obj, node.identifier, false, at(node.idx)))
+	reference := newPropertyReference(rt, obj, node.identifier, false, at(node.idx))
+	if targetValue.IsPrimitive() && !targetValue.IsUndefined() && !targetValue.IsNull() {
+		reference.primitive = targetValue
+	}
+	return toValue(reference)
 }
 
 func (rt *runtime) cmplEvaluateNodeNewExpression(node *nodeNewExpression) Value {
